@@ -600,7 +600,7 @@ func main() {
 					"within_margin": o.client != "stuck" && o.elapsedMs <= bound+3000, "elapsed_ms": o.elapsedMs, "err": o.cerr}})
 				continue
 			}
-			o = runOnce(cs, rng, 5*time.Second, 0, 0, 0)
+			o = runOnce(cs, rng, 20*time.Second, 0, 0, 0) // generous: CPU-bound parameter checks on a loaded machine
 			got := tr.M{"client": o.client, "server": o.server, "elapsed_ms": o.elapsedMs}
 			if o.client == "done" {
 				got["same_key"] = o.sameKey
